@@ -885,9 +885,34 @@ fn trees_of(spaces: &[TreeSpace], resolving_only: bool) -> Vec<Tree> {
             }
         }
     }
+    for t in branchy_trees() {
+        if !resolving_only || t.links_resolve() {
+            set.insert(t);
+        }
+    }
     let mut v: Vec<Tree> = set.into_iter().collect();
     v.sort_by(|a, b| a.nodes.len().cmp(&b.nodes.len()).then_with(|| a.cmp(b)));
     v
+}
+
+/// Fixed trees beyond the entry bound of the quick spaces: several sibling directories that each have
+/// contents, so that entries below the depth window's lower edge still decide the order of what is yielded
+/// (sorting x min_depth >= 2), also through a followed directory link and three levels deep
+fn branchy_trees() -> Vec<Tree> {
+    let mk = |items: &[(&str, Node)]| -> Tree {
+        let mut t = Tree::new();
+        for (p, n) in items {
+            t.insert(p, n.clone());
+        }
+        t.fix_link_kinds();
+        t
+    };
+    vec![
+        mk(&[("/a", Node::dir()), ("/b", Node::dir()), ("/a/a", Node::file(b"")), ("/b/a", Node::file(b""))]),
+        mk(&[("/a", Node::dir()), ("/b", Node::dir()), ("/c", Node::dir()), ("/a/a", Node::file(b"")), ("/a/b", Node::dir()), ("/b/a", Node::file(b"")), ("/c/a", Node::file(b"")), ("/c/b", Node::file(b""))]),
+        mk(&[("/a", Node::dir()), ("/b", Node::dir()), ("/a/a", Node::dir()), ("/b/a", Node::dir()), ("/a/a/a", Node::file(b"")), ("/b/a/a", Node::file(b"")), ("/b/a/b", Node::file(b""))]),
+        mk(&[("/a", Node::link("/b")), ("/b", Node::dir()), ("/c", Node::dir()), ("/b/a", Node::file(b"")), ("/b/b", Node::file(b"")), ("/c/a", Node::file(b""))]),
+    ]
 }
 
 fn stdfs_trees(t: Tier) -> Vec<Tree> {
